@@ -322,10 +322,11 @@ def reduce_cases(tier):
         fn = getattr(f, op)
         for shape in [()] + shapes:
             n = len(shape)
-            for dim in dims_for(n, tier):
+            # the empty tuple / list of dims: whichever reading the forward takes (reduce nothing, or everything), the backward must be the VJP of THAT forward
+            for dim in dims_for(n, tier) + [(), []]:
                 for keep in (False, True):
                     cases.append(VCase("functional." + op, {"op": "functional." + op, "shape": shape, "dim": dim, "keepdims": keep,
-                                                            "dim_kind": "none" if dim is None else ("int" if isinstance(dim, int) else "tuple"),
+                                                            "dim_kind": "none" if dim is None else ("int" if isinstance(dim, int) else ("tuple" if dim else "empty")),
                                                             "has_negative": (dim is not None) and any(d < 0 for d in ((dim,) if isinstance(dim, int) else dim))},
                                        [Leaf("a", shape)], lambda T, K, fn=fn, dim=dim, keep=keep: fn(T["a"], dim, keep), functions=fns))
         cases.append(VCase("Tensor." + op, {"op": "Tensor." + op, "shape": (2, 3), "dim": 1}, [Leaf("a", (2, 3))],
